@@ -2,6 +2,14 @@
 """prints DESIGN.md section 12 tables from seeded/*/matrix.txt and harmless/*/*.result"""
 import glob, os, re, json
 V = os.path.dirname(os.path.dirname(os.path.abspath(__file__)))
+# fallback for rows without a full matrix: the own-property run of tools/own_all.sh (seeded/own_checks.txt)
+OWN = {}
+op = os.path.join(V, 'seeded', 'own_checks.txt')
+if os.path.exists(op):
+    for l in open(op):
+        mo = re.match(r'^(\w+) (C\d\d) :: *(VIOLATION|OK|INCONCLUSIVE)?(.*no-failing-input-found)?', l)
+        if mo and mo.group(3):
+            OWN[mo.group(1)] = mo.group(3) + (' no-failing-input-found' if mo.group(4) else '') + ' (own check only)'
 print('| seeded change | file(s) | what it does | own check | other checks raising VIOLATION | undecided (exit 2) |')
 print('|---|---|---|---|---|---|')
 for d in sorted(glob.glob(os.path.join(V, 'seeded', '*'))):
@@ -23,7 +31,7 @@ for d in sorted(glob.glob(os.path.join(V, 'seeded', '*'))):
             p = l.split()
             if len(p) >= 2:
                 m[p[0]] = ' '.join(p[1:])
-    own = m.get(pid, 'not run')
+    own = m.get(pid) or OWN.get(name, 'not run')
     viol = [k for k, v in sorted(m.items()) if v.startswith('VIOLATION') and k != pid]
     inc = [k for k, v in sorted(m.items()) if v.startswith('INCONCLUSIVE')]
     print('| %s | %s | %s | %s | %s | %s |' % (name, ', '.join(files), what.replace('|', '/'), own, ' '.join(viol), ' '.join(inc)))
